@@ -114,4 +114,80 @@ func runWedge(c *ctx) {
 		e.sink.Close()
 		netn++
 	}
+	// a tick still queued when its period's last URR disappears: the periodic server is busy with a slow query when a second
+	// tick is queued behind it; the session is deleted meanwhile (its removal events queue behind that tick).  Whatever the
+	// stale tick finds, the next registration of a periodic URR (the control loop calls into the periodic server for it) and
+	// the requests after it must still be served.
+	rounds := 3
+	if c.thorough() {
+		rounds = 12
+	}
+	for i := 0; i < rounds; i++ {
+		urrs := 1 + i%3
+		latms := 40 + 30*(i%4)
+		e := newBufEnv(c, netn)
+		e.start()
+		var pend [][]byte
+		asr := e.rpc(message.NewAssociationSetupRequest(e.nextSeq(), ie.NewNodeID(e.ip(1), "", ""), ie.NewRecoveryTimeStamp(time.Unix(1700000000, 0))), &pend)
+		if causeOf(asr) != "1" {
+			fmt.Fprintln(os.Stderr, "harness: association refused")
+			die(3)
+		}
+		e.d.pk.mu.Lock()
+		e.d.pk.reports = func(cmd uint8, seid uint64, urr uint32) [][]byte { return [][]byte{usaReportAttr(seid, urr)} }
+		e.d.pk.mu.Unlock()
+		est := func(cp uint64) message.Message {
+			ies := []*ie.IE{ie.NewNodeID(e.ip(1), "", ""), ie.NewFSEID(cp, net.ParseIP(e.ip(1)), nil)}
+			for u := 1; u <= urrs; u++ {
+				ies = append(ies, ie.NewCreateURR(ie.NewURRID(uint32(u)), ie.NewMeasurementMethod(0, 1, 0), ie.NewReportingTriggers(0x01, 0x00), ie.NewMeasurementPeriod(time.Hour)))
+			}
+			return message.NewSessionEstablishmentRequest(0, 0, 0, e.nextSeq(), 0, ies...)
+		}
+		rsp := e.rpc(est(0x9000), &pend)
+		er, isEst := rsp.(*message.SessionEstablishmentResponse)
+		if !isEst || causeOf(rsp) != "1" || er.UPFSEID == nil {
+			fmt.Fprintln(os.Stderr, "harness: establishment refused:", causeOf(rsp))
+			die(3)
+		}
+		fs, _ := er.UPFSEID.FSEID()
+		e.settle()
+		drainConn(e.smf)
+		ps := forwarder.VerifPerio(e.d.g)
+		e.d.pk.mu.Lock()
+		e.d.pk.delay = map[uint8]time.Duration{gtp5gnl.CMD_GET_MULTI_REPORTS: time.Duration(latms) * time.Millisecond}
+		e.d.pk.mu.Unlock()
+		perio.VerifTick(ps, time.Hour) // taken at once: the server is now inside the slow query
+		time.Sleep(5 * time.Millisecond)
+		perio.VerifTick(ps, time.Hour) // stays queued
+		e.rpc(message.NewSessionDeletionRequest(0, 0, fs.SEID, e.nextSeq(), 0), &pend)
+		time.Sleep(time.Duration(2*latms+40) * time.Millisecond)
+		e.d.pk.mu.Lock()
+		e.d.pk.delay = nil
+		e.d.pk.mu.Unlock()
+		// the next periodic URR: the loop registers it with the periodic server
+		m2 := est(0x9001)
+		b := make([]byte, m2.MarshalLen())
+		if err := m2.MarshalTo(b); err == nil {
+			e.smf.WriteToUDP(b, e.srvA)
+		}
+		ok := false
+		deadline := time.Now().Add(4 * time.Second)
+		for time.Now().Before(deadline) && !ok {
+			drainConn(e.smf)
+			ok = e.doFence(300 * time.Millisecond)
+		}
+		res := "alive"
+		if !ok {
+			res = "wedged"
+		}
+		c.count("tickrace." + res)
+		c.emit("T wedge.tickrace urrs=%d latms=%d = %s", urrs, latms, res)
+		if ok {
+			e.stop()
+		}
+		e.smf.Close()
+		e.fence.Close()
+		e.sink.Close()
+		netn++
+	}
 }
